@@ -122,7 +122,7 @@ PROPS = {
         pairs={'C14_access': ['bounded:c14_vault']},
         level='other',
         technique='Verus: the access decision kernel AccessController::get_permission_level_verified (BFS over MEMBER edges with signature check, distance attenuation and capacity bottleneck) extracted and proved SOUND for every graph: a permission is returned only if an entity within the horizon reachable over MEMBER edges holds an allowed VAULT_ACCESS edge to the target of at least that level (membership alone never confers access); Permission::allows / from_level, max/min_permission and AttenuationPolicy::attenuate proved against the level order. Kani full-domain harnesses on the permission lattice and attenuation policy',
-        claim='decision soundness of get_permission_level_verified proved for every access graph, signer and policy (Verus; edge-type string tests and HMAC uninterpreted, BFS termination not proved); permission order/lattice ops and hop attenuation monotonicity proved for all policies and hop counts (Kani, complete)',
+        claim='decision soundness of get_permission_level_verified proved for every access graph, signer and policy (Verus; edge-type string tests and HMAC uninterpreted, BFS termination not proved); permission order/lattice ops and hop attenuation monotonicity proved for all policies and hop counts (Kani, complete); BOUNDED: whole-vault access decisions (grant / revoke / TTL expiry incl. group-held grants / delegation) against a spec decision with frame, and at-rest plaintext scans of store and snapshots, over the enumerated operation sequences',
         explanation='Lattice kernels proved; access decisions bounded.',
     ),
     'C15': dict(
